@@ -194,6 +194,7 @@ func cmdVerify(args []string) (code int) {
 			json.Unmarshal(d, &list)
 		}
 		sweepNotCovered = len(list.NotCovered)
+		v.sweepUses = cfg.Sweep.Uses
 		arity := v.arityFacts(*cfg.Sweep)
 		for _, k := range list.Claimed {
 			if *only != "" && !strings.Contains(k, *only) {
@@ -682,6 +683,11 @@ func (fv *FuncVC) VerifyTop() {
 	for _, f := range fn.FreeVars {
 		v := fv.m.FreshVal("free."+f.Name(), f.Type())
 		fv.typeFacts(v, st, "true")
+		// a captured variable is captured by reference: the free variable is the address of the variable's cell, which the
+		// enclosing function allocated before it made the closure - never nil
+		if _, isPtr := f.Type().Underlying().(*types.Pointer); isPtr && len(v.C) == 1 {
+			fv.ctx.Assume(Not(Eq(v.C[0], "0")))
+		}
 		free = append(free, v)
 	}
 	for i, p := range fn.Params {
